@@ -569,14 +569,17 @@ def rule_monotone_allocation(ctx):
                 return _full[fn.id]
             _full[fn.id] = False
             res = _replaces_solver(fn)
-            if not res:
+            own = bool(fn.impl and fn.impl.get("self_adt") == path)
+            if not res and own:
                 for y in prog.reachable_from([fn], virtual_dispatch=False).values():
                     if y is not fn and y.kind != "closure" and y.impl and y.impl.get("self_adt") == path and _replaces_solver(y):
                         res = True
-            if not res and depth < 4:
+            sig = prog.sigs.get(("lib", fn.path))
+            if not res and own and depth < 4 and sig is not None and sig["vis"] != "pub":
+                # a private helper of the encoder that only the full re-encoding calls
                 callers = {prog.enclosing_fn(cs.body).id: prog.enclosing_fn(cs.body) for cs in prog.callers_of(fn)}
                 callers.pop(fn.id, None)
-                if callers and all(is_full_encode(c, depth + 1) for c in callers.values()):
+                if callers and all(c.impl and c.impl.get("self_adt") == path and is_full_encode(c, depth + 1) for c in callers.values()):
                     res = True
             _full[fn.id] = res
             return res
